@@ -6,6 +6,7 @@ import gen
 from common import realize, circ_from_json, circ_to_json, err_name
 from props.evalcommon import py_exec
 from props.mutcommon import compare_mutate, py_mutate, check_wf
+from props.slicegen import make_slice, sub_from_slice, add_dead_loop_closer, dead_loop_slice
 
 RULE = ('random circuits (sharing, repeated operands, blocks, outputs that are inputs/repeated) x {rename of every '
         'gate to a fresh label (and to clashing/absent labels), replace_inputs for input subset pairs, remove_gate of '
@@ -24,99 +25,6 @@ DOCUMENTED = {'ReplaceSubcircuitError', 'DeleteBlockError', 'CreateBlockError', 
 
 def tt(j):
     return py_exec({'op': 'truth_table', 'c': j})
-
-
-def make_slice(rng, j):
-    """a cut-bounded slice: outputs O, interior gates, frontier inputs; as a subcircuit JSON"""
-    ops = {g[0]: (g[1], g[2]) for g in j['gates']}
-    nonin = [l for l, (t, o) in ops.items() if t != 'INPUT' and o]
-    if not nonin:
-        return None
-    outs = rng.sample(nonin, min(len(nonin), rng.choice([1, 1, 2])))
-    depth = rng.choice([1, 1, 2, 3])
-    interior, frontier = [], []
-    seen = set()
-    layer = list(outs)
-    for d in range(depth):
-        nxt = []
-        for l in layer:
-            if l in seen:
-                continue
-            seen.add(l)
-            t, o = ops[l]
-            if t == 'INPUT' or not o:
-                if t == 'INPUT':
-                    frontier.append(l)
-                else:
-                    interior.append(l)
-                continue
-            interior.append(l)
-            nxt += o
-        layer = nxt
-    for l in layer:
-        if l not in seen and l not in frontier:
-            frontier.append(l)
-    frontier = [l for l in dict.fromkeys(frontier) if l not in interior]
-    # interior in dependency order
-    order = [l for l in gen.topo_order(j) if l in interior]
-    return {'outs': outs, 'interior': order, 'frontier': frontier}
-
-
-def add_dead_loop_closer(rng, j):
-    """append dead logic dl_x = NOT(o1), dl_o2 = NOT(dl_x) above a random gate o1: the slice {o1, dl_o2} then has
-    the frontier gate dl_x depending on the slice output o1"""
-    cand = [g[0] for g in j['gates'] if g[1] != 'INPUT' and g[2] and g[0] not in g[2]]
-    if not cand:
-        return j
-    o1 = rng.choice(cand)
-    j = dict(j)
-    j['gates'] = j['gates'] + [['dl_x', 'NOT', [o1]], ['dl_o2', 'NOT', ['dl_x']]]
-    return realize(j)
-
-
-def dead_loop_slice(j):
-    ops = {g[0]: (g[1], list(g[2])) for g in j['gates']}
-    if 'dl_x' not in ops:
-        return None
-    o1 = ops['dl_x'][1][0]
-    frontier = [l for l in dict.fromkeys(ops[o1][1]) if l != o1] + ['dl_x']
-    return {'outs': [o1, 'dl_o2'], 'interior': [o1, 'dl_o2'], 'frontier': frontier}
-
-
-def sub_from_slice(j, sl, variant, rng):
-    ops = {g[0]: (g[1], list(g[2])) for g in j['gates']}
-    ren = (lambda l: l) if variant == 'identical' else (lambda l: 'r_' + l)
-    # 'entangled' is a renamed copy whose outputs also read an unrelated frontier gate
-    gates = [[ren(l), 'INPUT', []] for l in sl['frontier']]
-    for l in sl['interior']:
-        t, o = ops[l]
-        gates.append([ren(l), t, [ren(x) for x in o]])
-    outs = [ren(l) for l in sl['outs']]
-    if variant == 'reexpressed':
-        # route every output through a double negation (function preserved, more gates)
-        new_outs = []
-        for k, o in enumerate(outs):
-            gates.append([f'dn1_{k}', 'NOT', [o]])
-            gates.append([f'dn2_{k}', 'NOT', [f'dn1_{k}']])
-            new_outs.append(f'dn2_{k}')
-        outs = new_outs
-    if variant == 'entangled' and sl['frontier']:
-        # every output additionally reads a frontier gate it does not depend on functionally:
-        # o' = o OR (f AND NOT f) -- same function, one more structural dependency
-        new_outs = []
-        for k, o in enumerate(outs):
-            f = ren('dl_x' if 'dl_x' in sl['frontier'] and k == 0 else rng.choice(sl['frontier']))
-            gates.append([f'en1_{k}', 'NOT', [f]])
-            gates.append([f'en2_{k}', 'AND', [f, f'en1_{k}']])
-            gates.append([f'en3_{k}', 'OR', [o, f'en2_{k}']])
-            new_outs.append(f'en3_{k}')
-        outs = new_outs
-    sub = realize({'gates': gates, 'inputs': [ren(l) for l in sl['frontier']], 'outputs': outs})
-    im = [[l, ren(l)] for l in sl['frontier']]
-    om = [[l, o] for l, o in zip(sl['outs'], outs)]
-    if variant == 'incomplete' and im:
-        im = im[:-1]
-    return sub, im, om
 
 
 def gen_calls(ctx, rng, j):
